@@ -198,6 +198,10 @@ func (s *SencBox) ParseReadBox(perSampleIVSize byte, saiz *SaizBox) error {
 	}
 	sr := bits.NewFixedSliceReader(s.rawData)
 	nrBytesLeft := uint32(sr.NrRemainingBytes())
+	if s.SampleCount > nrBytesLeft {
+		// Every sample with per-sample data needs at least one byte, so this avoids huge allocations
+		return fmt.Errorf("senc: sample count %d too big for %d bytes of data", s.SampleCount, nrBytesLeft)
+	}
 
 	if s.Flags&UseSubSampleEncryption == 0 {
 		// No subsamples
